@@ -274,3 +274,24 @@ Theorem est_before_repair_refuted :
 Proof. exists [0], [1#2], 1, 0, (1#2). split.
   - constructor; [split; vm_compute; discriminate | constructor].
   - vm_compute. intros H. apply H. reflexivity. Qed.
+
+(* ===================== bridge: quantizer models (C01) -> qtools types (C18) ===================== *)
+(* QuantizedBits.convert_qkeras_quantizer (quantizer_impl.py:99-106): bits, int_bits = integer, is_signed = keep_negative *)
+From QV Require Import Quant.Fixed Quant.FixedThm.
+Open Scope Z_scope.
+Definition qt_of_qbits (c : qbits) : qt := QT 0 (qb_bits c) (qb_int c) (qb_kn c) false false None NQBits None.
+
+(* every value the quantized_bits model can emit (any input a/b) is a code of the qtools type reported for it,
+   on the same grid: weights, biases and fixed-point activations fit their reported quantizer type *)
+Theorem qbits_value_fits_reported_type c a b : 0 < qb_ub c ->
+  frac_bits (qt_of_qbits c) = - qb_se c /\ code_ok (qt_of_qbits c) (qb_code c a b).
+Proof. intros H.
+  assert (E : (0 <? qb_ub c) = true) by (apply Z.ltb_lt; exact H).
+  split.
+  - unfold frac_bits, qt_of_qbits, qb_se. cbn [q_bits q_sgn q_int]. rewrite E. unfold qb_ub. lia.
+  - pose proof (qb_code_range c a b ltac:(lia)) as [L U].
+    unfold code_ok, fix_lo, fix_hi, mag_bits, qt_of_qbits. cbn [q_bits q_sgn].
+    unfold qb_lo, qb_hi in *. rewrite E in L, U. fold (qb_ub c).
+    pose proof (pow2_ge1 (qb_ub c) ltac:(lia)).
+    destruct (qb_kn c); destruct (qb_sym c); cbn [b2z] in *; lia.
+Qed.
